@@ -330,6 +330,11 @@ class Container:
         if idx is not None:
             if idx < -self._size or idx >= self._size:
                 raise IndexError('point index out of range')
+            # Negative indexes count back from the last point stored in the
+            # container, not from the end of the allocated buffers (which may
+            # be longer than the container for extensible containers).
+            if idx < 0:
+                idx += self._size
             for name in pt._data_dictionary:
                 if name in self._data:
                     val = self._data[name]
